@@ -395,7 +395,9 @@ func (e *Engine) verifyFunc(fc *FuncContract) (res *FuncResult) {
 			c.assume(env.evalBool(r.Expr))
 		}
 		nreq := len(c.decls)
-		f.fspec = f.buildFrameSpec(f.specEnv(st, st, false), fc.Modifies, c.defaultHeap(0, nowHeap, "Int"))
+		if !fc.ModAll {
+			f.fspec = f.buildFrameSpec(f.specEnv(st, st, false), fc.Modifies, c.defaultHeap(0, nowHeap, "Int"))
+		}
 		f.loopBody = loopBodies(fn)
 		f.run(st, "true")
 		f.finish(nreq)
@@ -478,7 +480,7 @@ func (f *Frame) finish(nreq int) {
 
 func (f *Frame) frameCheck(r retInfo, env *SpecEnv) {
 	// individual writes are checked where they happen (frame.go); a call without any contract may write anything
-	if r.st.hid != 0 {
+	if r.st.hid != 0 && !(f.fc != nil && f.fc.ModAll) {
 		f.oblige("frame", "all", "false", r.pos, nil, "a call without contract may have modified anything; the function needs contracts on its callees")
 	}
 }
